@@ -5,6 +5,7 @@ package main
 //
 //	kind  json   core/provider.NewJSONProvider (DecodeProvider + JSONAmmoDecoder, passes: 1) over a core.DataSource
 //	      gj     components/providers/grpc/grpcjson.NewProvider (base components/providers/grpc.Provider) over an afero file
+//	      hj/hjp components/providers/http.NewProvider with the jsonline decoder, full scan / preload (tails ok | tr | bad)
 //	k     number of complete ammo at the head of the source
 //	tail  ok        the source ends after them
 //	      tr        … then an ammo that is cut short by the end of the source (a writer died, a truncated file)
@@ -34,6 +35,8 @@ import (
 	pkgerrors "github.com/pkg/errors"
 	"github.com/spf13/afero"
 	"github.com/yandex/pandora/components/providers/grpc/grpcjson"
+	httpprov "github.com/yandex/pandora/components/providers/http"
+	httpconf "github.com/yandex/pandora/components/providers/http/config"
 	"github.com/yandex/pandora/core"
 	"github.com/yandex/pandora/core/provider"
 )
@@ -55,6 +58,10 @@ func parseRp(v string) (rpSpec, error) {
 	}
 	switch f[0] {
 	case "json", "gj":
+	case "hj", "hjp":
+		if f[2] == "nofile" || f[2] == "slowopen" {
+			return rpSpec{}, fmt.Errorf("bad rp %q", v) // the http provider opens its file when it is constructed, not in Run
+		}
 	default:
 		return rpSpec{}, fmt.Errorf("bad rp kind %q", v)
 	}
@@ -79,6 +86,9 @@ func (s rpSpec) content() []byte {
 	rec := func(i int) string {
 		if s.kind == "gj" {
 			return fmt.Sprintf(`{"tag":"t%d","call":"pkg.Svc.Do","payload":{"n":%d}}`, i, i)
+		}
+		if s.kind == "hj" || s.kind == "hjp" {
+			return fmt.Sprintf(`{"host":"example.org","method":"GET","uri":"/a?n=%d","tag":"t%d","headers":{"X-N":"%d"}}`, i, i, i)
 		}
 		return fmt.Sprintf(`{"N":%d,"S":"ammo-%d"}`, i, i)
 	}
@@ -164,6 +174,13 @@ func realProvider(s rpSpec) (core.Provider, error) {
 			return nil, err
 		}
 		return grpcjson.NewProvider(rpFs{mem, s}, grpcjson.Config{File: "ammo.json", Passes: 1}), nil
+	case "hj", "hjp":
+		// components/providers/http.NewProvider with the jsonline decoder (full scan / preload), one pass
+		mem := afero.NewMemMapFs()
+		if err := afero.WriteFile(mem, "ammo.jsonline", s.content(), 0o644); err != nil {
+			return nil, err
+		}
+		return httpprov.NewProvider(mem, httpconf.Config{Decoder: httpconf.DecoderJSONLine, File: "ammo.jsonline", Passes: 1, Preload: s.kind == "hjp"})
 	}
 	return nil, fmt.Errorf("unknown provider kind %q", s.kind)
 }
